@@ -18,6 +18,9 @@
  * Case args: op-specific small indexes (scalars are taken from the alphabet by index so that cases stay short).
  */
 #include "gt_generic.h"
+#include <sys/wait.h>
+#include <unistd.h>
+#include <fcntl.h>
 #define K_ RLC_GT_EMBED
 #define G2FN(name) RLC_CAT(RLC_G2_LOWER, name)
 #if FP_PRIME == 575
@@ -158,6 +161,10 @@ static const char *GER[] = {"gt_exp", "gt_exp_sec", "gt_exp_dig", "gt_exp_gen", 
 static void do_gte(vf_case *c) {
 	int rt = (int)mpz_get_si(c->v[0]), ik = (int)mpz_get_si(c->v[1]), th = 0; bn_t k, l; bn_null(k); bn_new(k); bn_null(l); bn_new(l); sc_bn(k, ik); sc_bn(l, (ik + 5) % NSC); gt_t X, E1; gt_null(X); gt_new(X); gt_null(E1); gt_new(E1); mpz_t e; mpz_init_set(e, SC[ik]);
 	if (rt == 1 && (mpz_sgn(SC[ik]) < 0 || mpz_cmp(SC[ik], R) > 0)) { vf_stat_add("x.out_of_range_scalar_not_offered", 1); return; }
+	if (rt == 1 && ep_curve_frdim() < 3 && mpz_sizeinbase(SC[ik], 2) > RLC_DIG) { /* probed in a child: with fewer than three Frobenius dimensions (k = 8) the SAC exponentiation indexes its scratch entries q[1], q[2] past an array of frdim elements */
+		fflush(stdout); fflush(stderr); pid_t pid = fork(); if (pid == 0) { signal(SIGSEGV, SIG_DFL); signal(SIGBUS, SIG_DFL); signal(SIGABRT, SIG_DFL); signal(SIGALRM, SIG_DFL); alarm(60); int fd = open("/dev/null", O_WRONLY); if (fd >= 0) dup2(fd, 2); int t2 = 0; RLC_TRY { gt_exp_sec(X, E0, k); } RLC_CATCH_ANY { t2 = 1; } RLC_FINALLY { } if (t2) _exit(35); mpz_t m; mpz_init(m); mpz_mod(m, SC[ik], R); gx_pow(T, &Xr, &E0r, m); _exit(get_gt(&Yr, X) && relt_eq(T, &Xr, &Yr) ? 0 : 34); }
+		int st = 0; waitpid(pid, &st, 0); transitions++; if (WIFSIGNALED(st)) vf_fail("L43-gt-exp-sec-single-frobenius-dimension", "gt_exp_sec with scalar s%d dies with signal %d: out-of-bounds scratch entries in gt_exp_reg_sac when ep_curve_frdim() = %d", ik, WTERMSIG(st), (int)ep_curve_frdim()); else if (WEXITSTATUS(st) == 34) vf_fail("L43-gt-exp-sec-single-frobenius-dimension", "gt_exp_sec with scalar s%d: wrong value (ep_curve_frdim() = %d)", ik, (int)ep_curve_frdim()); else if (WEXITSTATUS(st) == 35) vf_stat_add("x.raised.gt_exp_sec", 1);
+		mpz_clear(e); bn_free(k); bn_free(l); gt_free(X); gt_free(E1); return; }
 	switch (rt) { case 0: VF_TRY(th, gt_exp(X, E0, k)); break; case 1: VF_TRY(th, gt_exp_sec(X, E0, k)); break; case 2: { dig_t d = (dig_t)(0x9E3779B97F4A7C15ULL >> (ik % 60)); VF_TRY(th, gt_exp_dig(X, E0, d)); mpz_import(e, 1, 1, sizeof d, 0, 0, &d); break; }
 		case 3: VF_TRY(th, gt_exp_gen(X, k)); break; case 4: { bn_t s; bn_null(s); bn_new(s); bn_set_dig(s, 7); gt_exp(E1, E0, s); bn_free(s); VF_TRY(th, gt_exp_sim(X, E0, k, E1, l)); mpz_addmul_ui(e, SC[(ik + 5) % NSC], 7); break; }
 		case 5: gt_exp(E1, E0, k); VF_TRY(th, gt_inv(X, E1)); mpz_neg(e, e); break; case 6: gt_exp(E1, E0, k); VF_TRY(th, gt_sqr(X, E1)); if (!th) VF_TRY(th, gt_mul(X, X, E1)); mpz_mul_ui(e, e, 3); break;
